@@ -3,7 +3,7 @@
    Proofs: Numscript/CompileCorrect*.v (no_panic is a corollary of compiler correctness: [sem] has no Panic). *)
 From FL Require Import Numscript.CompileCorrectClasses.
 From FL Require Import Numscript.ResourceLimit.
-From FL Require Import Numscript.Typing Numscript.ResourceLimitScript.
+From FL Require Import Numscript.Typing Numscript.ResourceLimitScript Numscript.ResourceLimitCompile.
 Open Scope Z_scope.
 
 (* ---- no panic -----------------------------------------------------------------------------------------------------------------
@@ -105,8 +105,8 @@ Print Assumptions C12_no_residue.
    A program.Address is a uint16; an address that wrapped would alias resource 0 and the machine would pop a value of
    the wrong type (a panic).  About the allocator of the model ([alloc], [append_resource]: the only writers of the
    resource table): a table within the limit stays within it and every address handed out is below 2^16; the limit is
-   exact (a table of 2^16 entries refuses the next one, a shorter one never refuses).  Partial: stated of the allocator,
-   not lifted to [compile_script]; the real compiler is observed at 65 535 .. 65 538 distinct resources by the thorough
+   exact (a table of 2^16 entries refuses the next one, a shorter one never refuses).  These two are stated of the allocator
+   (hence the names); the lift to the whole compiler is [C12_resource_table_fits] below; the real compiler is observed at 65 535 .. 65 538 distinct resources by the thorough
    tier of obs-numscript (family resource-limit). *)
 Theorem C12_resource_addresses_fit_partial : forall r cs i cs', fits cs -> alloc r cs = Some (i, cs') -> addr_u16 i /\ fits cs'.
 Proof. exact resource_addresses_fit. Qed.
@@ -124,6 +124,12 @@ Theorem C12_resource_table_fits_within_limits : forall sc p, compile sc = Some p
   (N.of_nat (length (p_res p)) <= max_resources)%N.
 Proof. exact compile_within_limits_fits. Qed.
 Print Assumptions C12_resource_table_fits_within_limits.
+
+(* the compiler as a whole, every script: the table of an accepted script has at most 2^16 entries - by the invariant
+   "the table is within the limit", kept by every action of the compiler monad (Numscript/ResourceLimitCompile.v) *)
+Theorem C12_resource_table_fits : forall sc p, compile sc = Some p -> (N.of_nat (length (p_res p)) <= max_resources)%N.
+Proof. exact compile_fits. Qed.
+Print Assumptions C12_resource_table_fits.
 
 (* ---- non-vacuity ---------------------------------------------------------------------------------------------------------- *)
 (* vars { account $a   monetary $b = balance($a, COIN)   monetary $c = balance($a, COIN) }      (two balance() on one account)
